@@ -225,6 +225,14 @@ def handle (line : String) : String :=
         let t (x : Bool) := if x then "t" else "f"
         s!"{m} {t c.trailingNewline} {t c.recursive} {c.numThreads} {v} {",".intercalate (c.inputs.map hex)}"
     | _, _, _, _ => "bad-field"
+  | ["guard", env] =>
+    -- the guard at the top of `main` on the value of TXTPP_FILE: `unset`, `notunicode`, or the hex of its text (`_` = empty)
+    let e : Option EnvVar :=
+      if env == "unset" then some .unset else if env == "notunicode" then some .notUnicode
+      else (unhex env).map .val
+    match e with
+    | none => "bad-field"
+    | some e => (match entry e {} with | none => "refuse" | some _ => "start")
   | ["shell", sh, cmd] =>
     -- the argument vector after the executable (`Shell::new` + `Shell::run`)
     match unhex sh, unhex cmd with
